@@ -73,6 +73,13 @@ where
         }
     }
 
+    /// Makes sure the "log prune" processor will not delete anything for this event.
+    ///
+    /// Only operations which passed validation are allowed to cause side effects.
+    pub(crate) fn ignore_log_prune(&mut self) {
+        self.log_prune_args = LogPruneArgs::Ignore;
+    }
+
     /// System-level data (append-only log, pruning coordination, etc.) of this operation.
     pub fn header(&self) -> &Header<E> {
         &self.operation.header
